@@ -19,6 +19,9 @@ THEOREMS = [
     'Rd.history_refines_cursor', 'Rd.implStep_refines', 'Rd.readUntilCore_refines', 'Rd.readCore_refines', 'Rd.readCore_pos_le',
     'Rd.performRead_spec', 'Rd.peek_refines', 'Rd.tailPeek_spec', 'Rd.finishRU_consume_peek', 'Rd.finalize_consume_of_notfound',
     'Rd.fragment_first_occ', 'Rd.find_spec', 'Rd.firstOcc_spec',
+    # --- ReaderC14.lean: the public wrappers
+    'Rd.read_refines', 'Rd.pipe_refines', 'Rd.exhaust_refines', 'Rd.readUntil_refines', 'Rd.pipeLoop_refines',
+    'Rd.abs_length_le', 'Rd.take_normalize', 'Rd.performRead_chunk', 'Rd.readCore_chunk', 'Rd.stopAt_big', 'Rd.stopAt_normalize',
     # --- ReaderProofs.lean: the file-like source with any short-read oracle is a LawfulSource; _perform_read; _read
     'Rd.Src.read_fst', 'Rd.Src.read_snd_data', 'Rd.capOf_le', 'Rd.capOf_pos', 'Rd.Src.readLen_le_size', 'Rd.Src.readLen_le_data',
     'Rd.Src.readLen_pos', 'Rd.performReadLoop_spec', 'Rd.performReadLoop_full', 'Rd.drop_take_append_drop', 'Rd.take_len_add',
@@ -42,6 +45,12 @@ STATEMENTS = {
     'Rd.readUntilCore_refines': "(= readUntil'_refines, prime-free name) _read_until(d, size, consume_delimiter=False) returns abs(r)[:stopAt d abs(r) size] - the text up to the first occurrence of d, size bytes or the end of the declared data - and leaves abs = the rest; holds for every buffer state, chunk size, delimiter of length 1..chunk and every lawful source",
     'Rd.readCore_refines': "(= read'_refines) _read(size), all five branches: returns take size abs(r), leaves drop size abs(r), keeps the invariant",
     'Rd.readCore_pos_le': "(= read'_pos_le) after _read the position is inside the buffer (pos <= len); this is the statement the code before b05da5a (F21) violates",
+    'Rd.read_refines': 'read(size) with size None, -1 or >= 0 (i.e. _normalize_size followed by _read): returns the next size bytes - everything for None/-1 or when fewer remain - leaves exactly the rest, keeps the invariant, pos <= len and the chunk size',
+    'Rd.pipe_refines': 'pipe() hands out exactly abs(r) (all that is still to come, in order, nothing twice) and leaves nothing; the fuel of the model loop is never exhausted',
+    'Rd.exhaust_refines': 'after exhaust() nothing is left to read and the invariant holds',
+    'Rd.readUntil_refines': 'read_until(d, size) with the delimiter not consumed, size None/-1/>= 0, 1 <= len(d) <= chunk and the normalised size within the 128-chunk join limit: returns abs(r)[:stopAt d abs(r) size] and leaves the rest',
+    'Rd.pipeLoop_refines': 'the read(chunk_size)-until-empty loop of pipe(), from any state satisfying the invariant with enough fuel: output = accumulator ++ abs(r), nothing left',
+    'Rd.abs_length_le': 'what is still to come is never longer than _normalize_size(None) = remaining budget + buffered bytes',
     'Rd.performRead_spec': '_perform_read(size) returns exactly the next min(size, |available|) declared bytes for every short-read behaviour of the source, advances the source by exactly that, never reads beyond the remaining budget, and zeroes the budget at a premature EOF',
     'Rd.peek_refines': 'peek(size) returns the next min(size clamped to the chunk size, |abs|) bytes and leaves abs, the invariant and pos <= len unchanged',
     'Rd.tailPeek_spec': 'the consume_delimiter tail (peek(len d) == d ? step over it : DelimiterError) succeeds exactly when the cursor is at the delimiter and otherwise does not move the cursor',
@@ -78,10 +87,11 @@ RULE = ('random part: data over {a,b,CR,LF,-} (uniform or delimiter-sparse) of l
         'parents of a live child and use invalid delimiters (model comparison only from there on). Grid part: every data string up to length 2 (quick) / 4 (thorough) x chunk sizes x '
         'source patterns x every history up to length 2 (quick) / 3 (thorough) over a fixed op alphabet (sync 18 ops, async 17 ops) incl. delimit/pop. '
         'non-trivial = some operation returned data; distinct = distinct (reader kind, construction, history)')
-PARTIAL = ('Proved for the sync reader: _perform_read, _read, _read_until without delimiter consumption, peek, histories of _read/_read_until, and the consume_delimiter tail for the three exits '
-           'that do not locate the delimiter. Not proved (carried by correspondence + oracle): consume_delimiter=True on the two exits that locate the delimiter, the thin wrappers '
-           '(read_until->pipe_until switch above 128 chunks, pipe, pipe_until, readline, readlines, exhaust), delimit_refines_subcursor (Delim as a LawfulSource), and everything about the async '
-           'reader (AsyncReader.lean has no theorems; nested async readers are not in the model and are checked by the oracle only).')
+PARTIAL = ('Proved for the sync reader (any lawful source): _perform_read, _read, read(size), peek, _read_until and read_until(d, size) without delimiter consumption (below the 128-chunk join '
+           'limit), pipe, exhaust, every history of _read/_read_until calls, and the consume_delimiter tail for the three loop exits that do not locate the delimiter. Not proved (carried by '
+           'correspondence + oracle): consume_delimiter=True on the two exits that locate the delimiter, the read_until -> pipe_until switch above 128 chunks and pipe_until itself, readline, '
+           'readlines, delimit_refines_subcursor (Delim as a LawfulSource), and everything about the async reader (AsyncReader.lean has no theorems; nested async readers are not in the model '
+           'and are checked by the oracle only).')
 JOBS = {'quick': 4, 'thorough': 16}
 
 ALPH = b'ab\r\n-'
@@ -1049,10 +1059,10 @@ def run(ctx):
 
 LEVEL_TEXT = ('Machine-checked refinement proofs (Lean 4) for the synchronous BufferedReader, stated for an arbitrary lawful source so that "every chunking" is a universally quantified '
               'type-class argument: _perform_read returns exactly the requested declared bytes under every short-read pattern; _read (5 branches), peek and _read_until (6 loop exits, '
-              'cross-chunk fragment test, backlog, look-ahead chunk) refine the flat cursor, and so does every history of _read/_read_until calls (history_refines_cursor). The models '
+              'cross-chunk fragment test, backlog, look-ahead chunk) refine the flat cursor, so do the public read(size), read_until(d, size), pipe() and exhaust(), and every history of _read/_read_until calls (history_refines_cursor). The models '
               '(sync incl. nested delimited readers; async root reader) are tied to falcon/util/reader.py and falcon/asgi/reader.py on every run by a differential correspondence that '
               'compares return values, exceptions, the exact sizes requested from the source (sync) and tell()/eof (async); an independent flat-cursor oracle written from the statement '
               'decides failing inputs for both readers, including two levels of delimited sub-readers.')
-LEVEL_NOTE = ('Trusted: Lean kernel + standard axioms, the correspondence harness, the Cur oracle. Partial: consume_delimiter=True on the delimiter-locating exits, the thin wrappers '
-              '(pipe, pipe_until, readline, readlines, exhaust, delimit) and the whole async reader are carried by correspondence + oracle, not by theorems.')
+LEVEL_NOTE = ('Trusted: Lean kernel + standard axioms, the correspondence harness, the Cur oracle. Partial: consume_delimiter=True on the delimiter-locating exits, pipe_until (and the '
+              'read_until switch to it above 128 chunks), readline, readlines, delimit and the whole async reader are carried by correspondence + oracle, not by theorems.')
 TECHNIQUE = 'Lean 4 refinement proof (reader model over any lawful source -> flat cursor) + differential correspondence model vs. real code + statement oracle (flat cursor with sub-cursors)'
